@@ -1,10 +1,31 @@
 import PyamgV.Driver.Relax
 import PyamgV.Driver.Graph
 import PyamgV.Driver.Num
+import PyamgV.Driver.C01
+import PyamgV.Driver.C02
+import PyamgV.Driver.C03
+import PyamgV.Driver.C04
+import PyamgV.Driver.C05
+import PyamgV.Driver.C06
+import PyamgV.Driver.C07
+import PyamgV.Driver.C08
+import PyamgV.Driver.C09
+import PyamgV.Driver.C10
+import PyamgV.Driver.C11
+import PyamgV.Driver.C12
+import PyamgV.Driver.C13
+import PyamgV.Driver.C14
+import PyamgV.Driver.C15
+import PyamgV.Driver.C16
+import PyamgV.Driver.C17
+import PyamgV.Driver.C18
+import PyamgV.Driver.C19
+import PyamgV.Driver.C20
 /-! The line-protocol driver: one request per line, one reply per line. Unknown ops reply `bad-op`. -/
 namespace PyamgV.Drv
 
-def handlers : List (List String → Option String) := [Relax.handle, Graph.handle, Num.handle]
+def handlers : List (List String → Option String) :=
+  [Relax.handle, Graph.handle, Num.handle, C01.handle, C02.handle, C03.handle, C04.handle, C05.handle, C06.handle, C07.handle, C08.handle, C09.handle, C10.handle, C11.handle, C12.handle, C13.handle, C14.handle, C15.handle, C16.handle, C17.handle, C18.handle, C19.handle, C20.handle]
 
 def dispatch (toks : List String) : String :=
   match handlers.findSome? (fun h => h toks) with
